@@ -39,7 +39,7 @@ NOTES = (
     "space is seed independent. Known findings / repaired defects: KNOWN_FINDINGS.txt. Every check = the exhaustive small scope "
     "named in its text + deterministic families beyond it (scale thresholds, object histories, structured mid-sized inputs such as "
     "the graph zoo and the longest winding loops, dense parameter sweeps, call spellings, aliasing and two-layer uses of one object); "
-    "the exact lists are in each evidence file (coverage.bounds) and in DESIGN.md 7.2 / 7.5; 143 independently written "
+    "the exact lists are in each evidence file (coverage.bounds) and in DESIGN.md 7.2 / 7.5; 163 independently written "
     "property-breaking changes and the checks that report them are in seeded/ and DESIGN.md 7.6."
 )
 
